@@ -12,7 +12,7 @@ TraceLog == ndJsonDeserialize(IOEnv.TRACE)
 NL == Len(TraceLog)
 tvars == <<vars, l, acc>>
 
-TraceInit == Init /\ l = 1 /\ acc = <<>> /\ TLCSet(1, 0)
+TraceInit == Init /\ l = 1 /\ acc = <<>>
 
 Has(ln, f) == f \in DOMAIN ln
 Step(ln) ==
@@ -43,27 +43,28 @@ Match(ln, evs, rec) ==
    /\ CeAgree(rec.snap.ce, ln.snap.ce)
 
 Done(p) == p.p \in {"idle", "done"}
+\* the last line has been explained: say so (acceptance is read from this message; an invariant violated on purpose would make TLC print the whole behaviour)
+Fin(lp) == lp = NL + 1 => PrintT("@@{\"accepted\":true}")
 \* a call begins
 TCall == /\ l <= NL /\ TraceLog[l].a # "Reset" /\ pc.p = "idle"
          /\ Step(TraceLog[l])
          /\ acc' = last'.ev
          /\ IF Done(pc') THEN Match(TraceLog[l], acc', last') /\ l' = l + 1 ELSE l' = l
+         /\ Fin(l')
 \* ... and goes on inside the server
 TInner == /\ l <= NL /\ ~Done(pc)
           /\ Inner
           /\ acc' = acc \o last'.ev
           /\ IF Done(pc') THEN Match(TraceLog[l], acc', last') /\ l' = l + 1 ELSE l' = l
+          /\ Fin(l')
 TReset == /\ l <= NL /\ TraceLog[l].a = "Reset" /\ Done(pc)
           /\ tbl' = <<>> /\ ducks' = <<>> /\ ses' = [s \in 1..N |-> Fresh0] /\ gws' = <<>> /\ con' = <<>> /\ fac' = Fac0
           /\ run' = 1 /\ arm' = NoArm /\ nid' = 1 /\ h' = [s \in 1..N |-> H0] /\ note' = NoNote /\ pc' = Pc0 /\ nsteps' = 0
-          /\ last' = [a |-> "Init"] /\ acc' = <<>> /\ l' = l + 1
+          /\ last' = [a |-> "Init"] /\ acc' = <<>> /\ l' = l + 1 /\ Fin(l')
 
 TraceNext == TCall \/ TInner \/ TReset
 TraceSpec == TraceInit /\ [][TraceNext]_tvars
 
-\* "violated" = the whole trace was explained by the specification
+\* (for runs by hand: "violated" = the whole trace was explained, and TLC prints how)
 NotAccepted == l <= NL
-\* progress register for diagnosing a rejection
-Track == TLCSet(1, IF TLCGet(1) > l THEN TLCGet(1) ELSE l)
-Report == PrintT(<<"maxline", TLCGet(1), "of", NL>>)
 =============================================================================
